@@ -7,7 +7,7 @@ def run_trace_spec(module, recs, tag, nproc=1, timeout=1800, extra_blobs=None, e
     """Write recs (list of dicts with 'case') to NDJSON files, validate each with TLC, collect flags.
     Returns (flags, tlc_results) where flags = list of (kind, case, what-text)."""
     os.makedirs(WORK, exist_ok=True)
-    nproc = max(1, min(nproc, (len(recs) + 199) // 200))
+    nproc = max(1, min(nproc, (len(recs) + 19) // 20))
     parts = [recs[k::nproc] for k in range(nproc)]
     jobs = []
     for k, part in enumerate(parts):
